@@ -25,7 +25,7 @@ RULE = (
 )
 ASSUMPTIONS = [
     "float64, CPU; identities are evaluated on observed voltages and the generated per-compartment parameters only",
-    "tolerances are rounding bounds derived per case: delta = (1e3*n*eps*cond + 1e-10)*max|v| + 1e-8 mV with cond of the scheme's "
+    "tolerances are rounding bounds derived per case: delta = (1e3*n*eps*cond + 1e-9)*max|v| + 1e-8 mV with cond of the scheme's "
     "matrix from R1 (cases with cond > 1e12 are filtered and counted); charge residual <= sum_i (C_i + dt G_i) * delta",
     "reciprocity tolerance 1e-7 * max|D| + delta-level floor",
     "a backend that raises is a counted refusal",
@@ -85,7 +85,7 @@ def _geom_class(spec):
 def _delta(cab, solver, dt, v0, got, gm_mS, const):
     be, cond = cab.backward_error(solver, dt, v0, got, gm_mS, const)
     scale = max(float(np.max(np.abs(got))), float(np.max(np.abs(v0))), 1.0)
-    return (1e3 * cab.N * np.finfo(float).eps * cond + 1e-10) * scale + 1e-8, cond
+    return (1e3 * cab.N * np.finfo(float).eps * cond + 1e-9) * scale + 1e-8, cond
 
 
 def judge(spec, tier="quick"):
@@ -179,7 +179,7 @@ def judge(spec, tier="quick"):
                 if cond > 1e12:
                     out.filtered += 1
                     continue
-                if not dev <= (1e3 * N * np.finfo(float).eps * cond + 1e-10) * abs(E0) + 1e-8:
+                if not dev <= (1e3 * N * np.finfo(float).eps * cond + 1e-9) * abs(E0) + 1e-8:
                     out.violate(f"uniform:{solver}:{backend}", f"{solver}/{backend} dt={dt}: uniform model at E={E0} moved by {dev:.3e} mV; cells={spec['morph']['cells']}")
     # (a') charge balance including synaptic currents (networks with conductance-based synapses, bwd_euler)
     if spec.get("syn"):
@@ -208,7 +208,7 @@ def judge(spec, tier="quick"):
                 out.evals += N * (N - 1) // 2
                 asym = np.abs(D - D.T)
                 scale = float(np.max(np.abs(D)))
-                tol = 1e-7 * scale + (1e3 * N * np.finfo(float).eps * cond + 1e-10) * max(float(np.max(np.abs(v0))), 1.0) * 10
+                tol = 1e-7 * scale + (1e3 * N * np.finfo(float).eps * cond + 1e-9) * max(float(np.max(np.abs(v0))), 1.0) * 10
                 if branched and big:
                     out.nontrivial_keys.append(f"{struct_key}|{decade}|{solver}|{backend}|reciprocity")
                 if float(np.max(asym)) > tol:
